@@ -6,7 +6,7 @@ from __future__ import annotations
 import os
 import random
 import time
-from datetime import datetime
+from datetime import datetime, timedelta, timezone
 from io import BytesIO
 
 from .. import env, gen, refcodec as rc
@@ -30,9 +30,19 @@ def shard_container_layout(desc, rec):
              "cdate": C.rdate(rng), "mdate": C.rdate(rng), "adate": C.rdate(rng), "comment": C.rcomment(rng)}
         case = {"driver": "layout", "what": "entry", "entry": e}
         rec.case(e, True, sample=e if i % 97 == 0 else None)
+        def as_dt(ts):
+            """the same instant given as a naive local time (fold set where needed), with sub-second part, or as an
+            aware datetime in UTC / another fixed offset"""
+            how = rng.choice(["naive", "naive", "naive-us", "utc", "offset"])
+            if how == "naive":
+                return datetime.fromtimestamp(ts)
+            if how == "naive-us":
+                return datetime.fromtimestamp(ts).replace(microsecond=rng.randint(1, 999999))
+            if how == "utc":
+                return datetime.fromtimestamp(ts, timezone.utc)
+            return datetime.fromtimestamp(ts, timezone(timedelta(minutes=rng.choice([-720, -210, 60, 330, 345, 840]))))
         ent = TdfEntry(BlockType(e["type"]), e["format"], e["offset"], e["size"],
-                       datetime.fromtimestamp(e["cdate"]), datetime.fromtimestamp(e["mdate"]),
-                       datetime.fromtimestamp(e["adate"]), e["comment"])
+                       as_dt(e["cdate"]), as_dt(e["mdate"]), as_dt(e["adate"]), e["comment"])
         buf = BytesIO()
         ent._write(buf)
         ref = rc.encode_entry(e)
@@ -158,9 +168,19 @@ def shard_container_scramble(desc, rec):
         # the same mutation applied to both files must leave them reporting the same content
         if m.live:
             code = m.types()[0]
+            outcome = []
             for p in (p1, p2):
-                with Tdf(p).allow_write() as t:
-                    t.remove_block(BlockType(code))
+                try:
+                    with Tdf(p).allow_write() as t:
+                        t.remove_block(BlockType(code))
+                    outcome.append("ok")
+                except Exception as ex:
+                    outcome.append(f"{type(ex).__name__}: {str(ex)[:80]}")
+            if outcome[0] != outcome[1]:
+                rec.violation("C12", "container:mutation-outcome-depends-on-dontcare-bytes",
+                              f"remove_block on the clean file: {outcome[0]}; on the file differing only in don't-care bytes: {outcome[1]}", case)
+                os.unlink(p1); os.unlink(p2)
+                continue
             try:
                 w1, w2 = _tdf_view(p1), _tdf_view(p2)
                 rec.count("oracle:C12.after-mutation-independent-of-dontcare")
